@@ -8,7 +8,7 @@ ID = "C03"
 THEOREMS = "Properties/C03.v"
 HARNESS = ["c03"]
 LEVEL = "proof"
-READY = False
+READY = True
 TRUSTED_BASE = [
     "Coq 8.16.1 kernel (coqc, full .vo build); vm_compute in Examples, refutation witnesses and the correspondence evaluation",
     "no axioms: Print Assumptions reports 'Closed under the global context' for every theorem of Properties/C03.v",
@@ -147,6 +147,24 @@ def sig(rng, op, twins):
     if op == "If":
         return [B(), A(1), A(1)]
     if op in ("Plus", "Minus", "Times", "Le", "Ge", "Lt", "Gt", "Div", "Mod"):
+        if rng.random() < 0.3:
+            # results exactly at / just beyond the int32 boundary
+            k = rng.randint(-3, 40)
+            edge = rng.choice([V.INT_MAX, V.INT_MIN, V.INT_MAX + 1, V.INT_MIN - 1])
+            if op == "Plus":
+                x = rng.choice([k, edge // 2, V.INT_MAX, V.INT_MIN]); y = edge - x
+            elif op == "Minus":
+                x = rng.choice([k, edge // 2, -1, 0]); y = x - edge
+            elif op == "Times":
+                y = rng.choice([1, -1, 2, -2, 3, 46341, 65536, -65536, 46340]); x = edge // y + rng.choice([0, 0, 1, -1])
+            elif op == "Div":
+                x = rng.choice([V.INT_MIN, V.INT_MAX, V.INT_MIN + 1]); y = rng.choice([-1, 1, 2, -2, V.INT_MIN, V.INT_MAX])
+            elif op == "Mod":
+                x = rng.choice([V.INT_MIN, V.INT_MAX, -1, 0]); y = rng.choice([1, 2, V.INT_MAX, 3])
+            else:
+                x = rng.choice([V.INT_MIN, V.INT_MAX]); y = x + rng.choice([-1, 0, 1])
+            clamp = lambda z: max(V.INT_MIN, min(V.INT_MAX, z))
+            return [["n", clamp(x)], ["n", clamp(y)]]
         return [I(), I()]
     if op == "Pow":
         return [rng.choice([I(), g_small(rng)]), rng.choice([g_small(rng), ["n", rng.randint(0, 33)], I()])]
@@ -433,8 +451,79 @@ def run(ctx):
         print("replay:", [(c["op"], c["_res"], classify(c, c["_res"])[:3]) for c in cases][:3], [b["what"] for b in ctx.breaks])
 
 
+CALLS = {"Assert": "CAssert", "ToString": "CToString", "Eq": "CEq", "Neq": "CNeq", "Not": "CNot", "Equiv": "CEquiv", "And": "CAnd", "Or": "COr",
+         "Implies": "CImplies", "If": "CIf", "Plus": "CPlus", "Minus": "CMinus", "Times": "CTimes", "Pow": "CPow", "Le": "CLe", "Ge": "CGe", "Lt": "CLt",
+         "Gt": "CGt", "DotDot": "CDotDot", "Div": "CDiv", "Mod": "CMod", "Neg": "CNeg", "In": "CIn", "NotIn": "CNotIn", "Intersect": "CIntersect",
+         "Union": "CUnion", "SubsetEq": "CSubsetEq", "SetMinus": "CSetMinus", "SUBSET": "CSUBSET", "UNION": "CUNION", "IsFiniteSet": "CIsFiniteSet",
+         "Cardinality": "CCardinality", "Len": "CLen", "Concat": "CConcat", "Append": "CAppend", "Head": "CHead", "Tail": "CTail", "SubSeq": "CSubSeq",
+         "ColonGt": "CColonGt", "AtAt": "CAtAt", "Domain": "CDomain", "Apply": "CApply", "SelectElement": "CSelectElement", "MakeSet": "CMakeSet",
+         "MakeTuple": "CMakeTuple", "MakeRecord": "CMakeRecord", "MakeRecordSet": "CMakeRecordSet", "MakeFunctionSet": "CMakeFunctionSet",
+         "CrossProduct": "CCrossProduct"}
+PCL = {"true": "PTrue", "false": "PFalse", "isnum": "PIsNum", "gt": "PGt", "eq": "PEq", "neq": "PNeq", "in": "PIn", "lt2": "PLt2", "eq2": "PEq2", "asbool": "PAsBool"}
+BCL = {"id": "BId", "const": "BConst", "tuple": "BTuple", "plus": "BPlus", "single": "BSingle", "isnum": "BIsNum", "mod": "BMod", "last": "BLast"}
+UNMODELLED = {"Seq", "SelectSeq"}
+
+
+def coq_cl(table, cl):
+    # constants and EXCEPT keys are sent as written (possibly with repeated members): the model builds them
+    # with the constructors (C05 `build`), as the harness does
+    return "(%s (build %s))" % (table[cl[0]], V.coq_value(cl[1])) if len(cl) > 1 else table[cl[0]]
+
+
+def coq_call(c):
+    op = c["op"]
+    if op in CALLS:
+        return CALLS[op]
+    if op in ("Forall", "Exists", "SetRefinement", "Choose"):
+        return "(C%s %s)" % (op, coq_cl(PCL, c["fn"]))
+    if op in ("SetComprehension", "MakeFunction"):
+        return "(C%s %s)" % (op, coq_cl(BCL, c["fn"]))
+    if op == "Except":
+        return "(CExcept %s)" % vlib.coq_list(["(%s, %s)" % (vlib.coq_list(["(build %s)" % V.coq_value(k) for k in s["keys"]]), coq_cl(BCL, s["val"])) for s in c["subs"]])
+    raise ValueError(op)
+
+
+def coq_observed(r):
+    return {"ok": lambda: "(OVal %s)" % V.coq_value(r["val"]), "tlatype": lambda: "OTypeErr", "panic": lambda: "OPanic", "hang": lambda: "OHang"}[r["out"]]()
+
+
+def too_big(c):
+    """calls whose model evaluation would enumerate a huge range"""
+    if c["op"] == "DotDot" and all(a[0] == "n" for a in c["args"][:2]) and c["args"][1][1] - c["args"][0][1] > 5000:
+        return True
+    return False
+
+
 def tie(ctx, cases):
-    pass
+    """tie B: C03/Impl.v evaluated by vm_compute on the arguments as the runtime holds them"""
+    if not ctx.coq_ok:
+        return
+    from concurrent.futures import ThreadPoolExecutor
+    todo = [c for c in cases if c["op"] not in UNMODELLED and not too_big(c) and c["_res"].get("args_rep") is not None
+            and len(c["_res"]["args_rep"]) == len(c["args"])]
+    shard = 400
+    parts = [todo[s:s + shard] for s in range(0, len(todo), shard)]
+
+    def ev(k):
+        body = ("From PGV Require Import C03.Impl.\nDefinition M := Eval vm_compute in mismatches_from 0\n [" +
+                ";\n ".join("(%s, %s, %s)" % (coq_call(c), vlib.coq_list([V.coq_value(a) for a in c["_res"]["args_rep"]]), coq_observed(c["_res"]))
+                            for c in parts[k]) + "].\nPrint M.\n")
+        return (k,) + vlib.coq_eval("C03_cases_%d" % k, body)
+
+    with ThreadPoolExecutor(max_workers=4) as ex:
+        results = list(ex.map(ev, range(len(parts))))
+    for k, rc, out, err in results:
+        mm = vlib.parse_nat_list(out, "M") if rc == 0 else None
+        if mm is None:
+            ctx.breaks.append({"what": "correspondence evaluation C03_cases did not compile", "detail": (out + err)[-2000:]})
+            break
+        for i in mm:
+            c = parts[k][i]
+            rc2, out2, _ = vlib.coq_eval("C03_one_%d" % k, "From PGV Require Import C03.Impl.\nEval vm_compute in run_call %s %s.\n" % (
+                coq_call(c), vlib.coq_list([V.coq_value(a) for a in c["_res"]["args_rep"]])))
+            ctx.breaks.append({"what": "correspondence C03/Impl.v vs distsys/tla differs on %s" % c["op"],
+                               "case": {k2: v for k2, v in c.items() if not k2.startswith("_")}, "impl": c["_res"], "model": out2.strip()[-800:]})
+    ctx.extra["model_evaluated_cases"] = len(todo)
 
 
 MANIFEST = {
